@@ -60,6 +60,10 @@ func (tc tcase) routes() []rx.R {
 		return []rx.R{{Match: []map[string]any{neverPeek}, Handle: term}}
 	case "no+never":
 		return []rx.R{{Match: []map[string]any{rx.M("verif_need", &rx.Need{N: 1, Pos: 0, Val: 0xEE})}, Handle: term}, {Match: []map[string]any{never}, Handle: term}}
+	case "never-or-no":
+		// one route, two OR'ed matcher sets: the first never decides, the second says no as soon as a byte is there;
+		// the route is undecided for as long as its first set is
+		return []rx.R{{Match: []map[string]any{never, rx.M("verif_need", &rx.Need{N: 1, Pos: 0, Val: 0xEE})}, Handle: term}}
 	case "http":
 		return []rx.R{{Match: []map[string]any{rx.M("http", []any{})}, Handle: term}}
 	case "err":
@@ -108,7 +112,7 @@ func genCase(t *rapid.T, thorough bool) tcase {
 		Phase: rapid.IntRange(-1, 9).Draw(t, "phase")}
 	tc.Schedule = []string{"silent", "trickle", "flood", "silent", "trickle"}[rapid.IntRange(0, 4).Draw(t, "schedule")]
 	tc.Every = time.Duration(rapid.IntRange(2, 40).Draw(t, "everyMs")) * time.Millisecond
-	kinds := []string{"never", "never-peek", "no+never", "http", "err", "err0+next", "subroute", "match-then-slow", "nonterminal-then-never", "subroute-fallthrough-then-slow", "consume-then-never"}
+	kinds := []string{"never", "never-peek", "no+never", "http", "err", "err0+next", "subroute", "match-then-slow", "nonterminal-then-never", "subroute-fallthrough-then-slow", "consume-then-never", "never-or-no"}
 	tc.Routes = kinds[rapid.IntRange(0, len(kinds)-1).Draw(t, "routes")]
 	tc.InnerTimeout = time.Duration(rapid.IntRange(150, maxT).Draw(t, "innerMs")) * time.Millisecond
 	tc.ErrAfter = rapid.IntRange(0, 40).Draw(t, "errAfter")
